@@ -759,6 +759,10 @@ def run(ctx, only_replay=None):
             sid = int(cur[1]) if cur else None
             s = next((x for x in lst if x["id"] == sid), None)
             race = "DATA RACE" in r["stderr"]
+            if not race and not (re.search(r"^panic:", r["stderr"], re.M) and "wuffs/lib/rac" in r["stderr"]):
+                # e.g. "runtime: failed to create new OS thread" on an overloaded machine: not a verdict
+                raise ToolingError("racrreplay died (rc %s, %s) without a race report or a panic in lib/rac, while running %s:\n%s" % (
+                    r["rc"], r.get("headline"), fmt_script(s["h"]) if s else "?", r["stderr"][:3000]))
             what = ("DATA RACE reported by the Go race detector" if race else "the process died (rc %s: %s)" % (r["rc"], r.get("headline"))) + \
                    " while running on rac.Reader{Concurrency: %d}: %s\n%s" % (c, fmt_script(s["h"]) if s else "?", r["stderr"][:2500])
             ctx.violation(what, {"file": fdescs[s["f"]] if s else None, "conc": c, "script": s["h"] if s else None,
